@@ -192,7 +192,11 @@ def x_tree(ctx, case):
         want_calls = sorted(i for i in L if i in build.own)
         ctx.check(sorted(build.own_calls) == want_calls, "filter.a-case's-own-filter_by_ids-is-used",
                   lambda: {"called for": sorted(build.own_calls), "cases defining it": want_calls, **detail()})
-    got = [t.id() for t in iterate_tests(f)]
+    try:
+        got = [t.id() for t in iterate_tests(f)]
+    except Exception as e:  # noqa - what filter_by_ids handed back is not a suite or a case
+        ctx.check(False, "filter.exactly-the-chosen-in-order", {"filter_by_ids returned": repr(f), "error": repr(e), **detail()})
+        return True
     ctx.check(got == [i for i in L if i in keep], "filter.exactly-the-chosen-in-order",
               lambda: {"got": got, "want": [i for i in L if i in keep], **detail()})
     if tree[0] != "leaf":
@@ -467,6 +471,9 @@ def x_run(ctx, case):
                             stdout=junk, exit=False)
             except SystemExit:
                 pass
+            except Exception as e:  # noqa - (module=None with a name that cannot be imported is ordinary use)
+                ctx.check(False, "run.list-prints-exactly-the-ids", {"TestProgram(module=None, ...) raised": repr(e)})
+                return True
         out = io.StringIO()
         if case.get("falsy_stdout"):
             class ListWriter:
@@ -489,8 +496,9 @@ def x_run(ctx, case):
             out = ListWriter()
         try:
             TestProgram(module=mod, argv=["prog", "--list"] + names, stdout=out, exit=False, **runner_kw)
-        except SystemExit as e:
-            ctx.check(False, "run.list-prints-exactly-the-ids", {"SystemExit": repr(e.code)})
+        except (SystemExit, Exception) as e:  # noqa - in-domain arguments: that is the violation
+            ctx.check(False, "run.list-prints-exactly-the-ids", {"TestProgram raised": repr(e), "argv": ["--list"] + names})
+            return True
         listed = out.getvalue().split("\n")
         ctx.check(listed[-1:] == [""] and listed[:-1] == L, "run.list-prints-exactly-the-ids",
                   lambda: {"listed": listed, "want": L, "tree": tree})
@@ -504,7 +512,11 @@ def x_run(ctx, case):
             f.write(sep.join(keep).encode("utf-8") + (sep.encode() if keep and style < 3 else b""))
         del runlog[:]
         out = io.StringIO()
-        TestProgram(module=mod, argv=["prog", "--load-list", path] + names, stdout=out, exit=False, **runner_kw)
+        try:
+            TestProgram(module=mod, argv=["prog", "--load-list", path] + names, stdout=out, exit=False, **runner_kw)
+        except Exception as e:  # noqa - in-domain arguments: that is the violation
+            ctx.check(False, "run.load-list-runs-exactly-the-listed", {"TestProgram raised": repr(e), "keep": keep})
+            return True
         want = [i for i in L if i in set(keep)]
         ctx.check(runlog == want, "run.load-list-runs-exactly-the-listed",
                   lambda: {"ran": runlog, "want": want, "tree": tree, "keep": keep})
@@ -517,8 +529,9 @@ def x_run(ctx, case):
         try:
             TestProgram(module=mod, argv=["prog", "--list", "--load-list", path] + names, stdout=out, exit=False,
                         **runner_kw)
-        except SystemExit as e:
-            ctx.check(False, "run.list-prints-exactly-the-ids", {"SystemExit": repr(e.code), "with": "--load-list"})
+        except (SystemExit, Exception) as e:  # noqa
+            ctx.check(False, "run.list-prints-exactly-the-ids", {"TestProgram raised": repr(e), "with": "--load-list"})
+            return True
         listed = out.getvalue().split("\n")
         ctx.check(listed[-1:] == [""] and listed[:-1] == want and not runlog, "run.list-prints-exactly-the-ids",
                   lambda: {"listed with --load-list": listed, "want": want, "ran": runlog, "tree": tree, "keep": keep})
